@@ -4,6 +4,7 @@ import (
 	"encoding/binary"
 	"encoding/hex"
 	"fmt"
+	"strconv"
 
 	"github.com/Breeze0806/gobinlog/replication"
 
@@ -241,7 +242,8 @@ type c17Scn struct {
 	Lock bool   `json:"lock"`
 }
 
-var c17Kinds = []string{"empty", "one-byte", "18-bytes", "truncated-by-1", "extended-by-1", "random"}
+var c17Kinds = []string{"empty", "one-byte", "18-bytes", "truncated-by-1", "extended-by-1", "random",
+	"first-4", "first-5", "first-9", "first-12", "first-13", "first-14", "first-15", "first-16", "first-17", "first-19", "first-20"}
 
 func c17Payload(kind string, plan []sim.PlanPkt, at int, r *core.Rng) []byte {
 	var evb []byte
@@ -261,6 +263,16 @@ func c17Payload(kind string, plan []sim.PlanPkt, at int, r *core.Rng) []byte {
 		return b
 	case "truncated-by-1":
 		return append([]byte(nil), evb[:len(evb)-1]...)
+	case "first-4", "first-5", "first-9", "first-12", "first-13", "first-14", "first-15", "first-16", "first-17", "first-19", "first-20":
+		// only the first n bytes of a real event, in a buffer of exactly that
+		// capacity (every header field boundary, and just past the header)
+		n, _ := strconv.Atoi(kind[len("first-"):])
+		if n > len(evb)-1 {
+			n = len(evb) - 1
+		}
+		b := make([]byte, n)
+		copy(b, evb)
+		return b
 	case "extended-by-1":
 		return append(append([]byte(nil), evb...), byte(r.Intn(256)))
 	}
